@@ -249,6 +249,38 @@ def _mk_merge_external(S, n):
     return q
 
 
+def _mk_merge_noblock(S, n):
+    """the non-blocking path: merge_external_noblock queues the command, the caller later blocks in FutureMergeResponse::get"""
+    def q(vm, P):
+        st, ids, tracks = _mk_store(vm, P, S, n)
+        sid, src = sym_track(P, vm, 'src')
+        dest_id = vm.fresh(64, 'dest_id')
+        flag = vm.choose_n(2, "history flag")
+        cls = SOME(Ref(Cell(VecV((usize(0),)), 'classes')))
+        before = [st.shard(i) for i in range(S)]
+        r = vm.exec_fn(_fn(P, 'merge_external_noblock'), [st.ref(), dest_id, src, cls, BOOL(bool(flag))], STORE_ENV)
+        vm.check(BOOL(r.variant == 0), "queueing the merge succeeds")
+        fut = Cell(r.fields[0], 'future')
+        get = P.impl_methods[('FutureMergeResponse', None, 'get')][0][0]
+        res = vm.exec_fn(get, [Ref(fut)], STORE_ENV)
+        e = vm.notes.get('env') or Env(vm)
+        exists = z3.Or([dest_id.e == i.e for i in ids] + [z3.BoolVal(False)])
+        same = dest_id.e == sid.e
+        failed_cb = e.count('fail') > 0
+        vm.notes.update(kind='merge_noblock', n=n, S=S, flag=flag)
+        for tid, t in zip(ids, tracks):
+            cur = [v for i in range(S) for k, v in st.shard(i).items if k is tid]
+            vm.check(BOOL(len(cur) == 1), "no stored track is removed or duplicated")
+            vm.check(z3.Implies(tid.e != dest_id.e, struct_eq(cur[0], t)), "merging changes only the destination")
+        if res.variant == 0:
+            vm.check(z3.And(exists, z3.Not(same)), "the non-blocking merge reports success only when the destination exists and differs from the source")
+            vm.check(BOOL(not failed_cb), "the non-blocking merge reports success only when the merge itself succeeded")
+        else:
+            vm.check(z3.Or(z3.Not(exists), same, BOOL(failed_cb)), "the non-blocking merge fails only for a missing destination, the same track, or a failed merge")
+            vm.check(z3.And([struct_eq(st.shard(i), before[i]) for i in range(S)]), "a failed merge leaves the store unchanged")
+    return q
+
+
 def _mk_merge_owned(S, n):
     def q(vm, P):
         st, ids, tracks = _mk_store(vm, P, S, n)
@@ -428,6 +460,33 @@ EXTERNAL_BODY = r'''let _ = remove;
                     assert_eq!(stored(&store, b), sb, "a failed merge leaves the store unchanged: {}", ctx);
                 }
             }'''
+
+
+NOBLOCK_BODY = r'''let _ = remove;
+            let src_track = if src == missing { build(missing, &[0u64], &notif) } else { store.get_store(src as usize).get(&src).unwrap().clone() };
+            CALLS.store(0, Ordering::SeqCst);
+            FAIL_AT.store(fail_at, Ordering::SeqCst);
+            let fut = store.merge_external_noblock(dest, src_track, Some(&[0]), hist).expect("queueing succeeds");
+            let r = fut.get();
+            FAIL_AT.store(-1, Ordering::SeqCst);
+            let failed_cb = fail_at >= 0 && CALLS.load(Ordering::SeqCst) > fail_at;
+            let ctx = format!("non-blocking: dest {} src {} history {} fault position {}", dest, src, hist, fail_at);
+            assert_eq!(store.shard_stats().iter().sum::<usize>(), 2, "no stored track is removed or duplicated: {}", ctx);
+            let other = if dest == a { b } else { a };
+            assert_eq!(stored(&store, other), if other == a { sa.clone() } else { sb.clone() }, "merging changes only the destination: {}", ctx);
+            match r {
+                Ok(()) => assert!(exists(dest) && dest != src && !failed_cb, "the non-blocking merge reported success without a successful merge: {}", ctx),
+                Err(_) => {
+                    assert!(!exists(dest) || dest == src || failed_cb, "the non-blocking merge failed without a reason: {}", ctx);
+                    assert_eq!(stored(&store, a), sa, "a failed merge leaves the store unchanged: {}", ctx);
+                    assert_eq!(stored(&store, b), sb, "a failed merge leaves the store unchanged: {}", ctx);
+                }
+            }'''
+
+
+def _replay_merge_noblock(cex, v, vm):
+    a, b, missing = _sweep_ids(cex)
+    return STORE_PRELUDE + MERGE_SWEEP % dict(a=a, b=b, missing=missing, S=vm.notes.get('S', 1), body=NOBLOCK_BODY)
 
 
 def _sweep_ids(cex):
@@ -700,6 +759,11 @@ for S, n, tier in [(1, 2, 'quick'), (2, 2, 'quick'), (3, 2, 'thorough'), (2, 3, 
            "%d shards, %d stored tracks, symbolic destination id / source id, every fault position" % (S, n),
            [TS + "merge_external", TS + "merge_external_noblock", W, "similari::track::Track::merge", "similari::track::store::FutureMergeResponse::get"],
            spec_calls=track_callbacks, replay=_replay_merge_external, key='merge-external-success-on-failure'),
+        MQ("c09_merge_noblock_%d_%d" % (S, n), tier, _mk_merge_noblock(S, n),
+           "merge_external_noblock + FutureMergeResponse::get: same reporting as the blocking merge (missing destination, same track, failed merge -> error, store unchanged)",
+           "%d shards, %d stored tracks, symbolic destination id / source id, every fault position" % (S, n),
+           [TS + "merge_external_noblock", W, "similari::track::Track::merge", "similari::track::store::FutureMergeResponse::get"],
+           spec_calls=track_callbacks, replay=_replay_merge_noblock),
         MQ("c09_merge_owned_%d_%d" % (S, n), tier, _mk_merge_owned(S, n),
            "merge_owned: missing source/destination, same track or failed merge -> error with both tracks stored and unchanged; success -> source removed iff asked",
            "%d shards, %d stored tracks, symbolic ids, both flags, every fault position" % (S, n),
